@@ -529,19 +529,46 @@ func main() {
 	}
 	// hostWrapper.Report: `if len(h.sources) > 0 { remember }` then `for _, s := range h.sources { s.Report(e) }`;
 	// addSource: previousEvents.Do(replay) then append — statement ORDER is what the model relies on
+	// The lock statements are reported as DATA (wrapperLocked), the rest of the shape is required.
 	rp := findMethod(hf, "hostWrapper", "Report")
-	if len(rp.Body.List) != 4 || !isLock(rp.Body.List[0]) || !isDeferUnlock(rp.Body.List[1]) {
-		die("hostWrapper.Report no longer has the shape {Lock; defer Unlock; if len(sources) > 0 {remember}; for range sources {Report}}")
-	}
-	if _, ok := rp.Body.List[2].(*ast.IfStmt); !ok {
-		die("hostWrapper.Report: third statement is not the `if len(h.sources) > 0` guard")
-	}
-	if rs, ok := rp.Body.List[3].(*ast.RangeStmt); !ok || selName(rs.X) != "sources" || !mentions(rs.Body, "Report") {
-		die("hostWrapper.Report: fourth statement is not the fan-out loop over h.sources")
-	}
 	ad := findMethod(hf, "hostWrapper", "addSource")
-	if len(ad.Body.List) != 4 || !isLock(ad.Body.List[0]) || !isDeferUnlock(ad.Body.List[1]) || !mentions(ad.Body.List[2], "Do") || !mentions(ad.Body.List[3], "append") {
-		die("hostWrapper.addSource no longer has the shape {Lock; defer Unlock; previousEvents.Do(replay); sources = append(sources, s)}")
+	wrapperLocked := true
+	body := func(fd *ast.FuncDecl, name string) []ast.Stmt {
+		l := fd.Body.List
+		if len(l) >= 2 && isLock(l[0]) && isDeferUnlock(l[1]) {
+			l = l[2:]
+		} else {
+			wrapperLocked = false
+		}
+		for _, st := range l {
+			ast.Inspect(st, func(n ast.Node) bool {
+				switch x := n.(type) {
+				case *ast.GoStmt:
+					wrapperLocked = false
+				case *ast.CallExpr:
+					switch selName(x.Fun) {
+					case "Lock", "Unlock", "RLock", "RUnlock", "TryLock":
+						wrapperLocked = false
+					}
+				}
+				return true
+			})
+		}
+		if len(l) != 2 {
+			die("hostWrapper.%s: expected two statements besides Lock / defer Unlock, got %d", name, len(l))
+		}
+		return l
+	}
+	rb := body(rp, "Report")
+	if _, ok := rb[0].(*ast.IfStmt); !ok {
+		die("hostWrapper.Report: no `if len(h.sources) > 0 {remember}` guard before the fan-out")
+	}
+	if rs, ok := rb[1].(*ast.RangeStmt); !ok || selName(rs.X) != "sources" || !mentions(rs.Body, "Report") {
+		die("hostWrapper.Report: the last statement is not the fan-out loop over h.sources")
+	}
+	ab := body(ad, "addSource")
+	if !mentions(ab[0], "Do") || !mentions(ab[1], "append") {
+		die("hostWrapper.addSource no longer has the shape {previousEvents.Do(replay); sources = append(sources, s)}")
 	}
 
 	var b strings.Builder
@@ -555,7 +582,8 @@ func main() {
 	fmt.Fprintf(&b, "/-- `Service.Start` (service/service.go): layers in call order, each `if err != nil { return }` -/\ndef serviceStart : List GLayer := %s\n\n", leanList(svcStart))
 	fmt.Fprintf(&b, "/-- `Service.Shutdown`: layers in call order, errors collected -/\ndef serviceStop : List GLayer := %s\n\n", leanList(svcStop))
 	fmt.Fprintf(&b, "/-- `sharedcomponent.Component.Start`, startOnce body (after creating the wrapper and attaching the first host): statuses reported\nthrough the wrapper before the inner `Start`, and in its error branch -/\ndef sharedStartPre : List St := %s\ndef sharedStartErr : List St := %s\n\n", leanList(startPre), leanList(startErr))
-	fmt.Fprintf(&b, "/-- `sharedcomponent.Component.Shutdown`, stopOnce body: before the inner `Shutdown` / error branch / success branch (each only `if c.hostWrapper != nil`) -/\ndef sharedStopPre : List St := %s\ndef sharedStopErr : List St := %s\ndef sharedStopOk : List St := %s\n\nend OtelVerif.Gen.StatusGlue\n", leanList(stopPre), leanList(stopErr), leanList(stopOk))
+	fmt.Fprintf(&b, "/-- `sharedcomponent.Component.Shutdown`, stopOnce body: before the inner `Shutdown` / error branch / success branch (each only `if c.hostWrapper != nil`) -/\ndef sharedStopPre : List St := %s\ndef sharedStopErr : List St := %s\ndef sharedStopOk : List St := %s\n\n", leanList(stopPre), leanList(stopErr), leanList(stopOk))
+	fmt.Fprintf(&b, "/-- `hostWrapper.Report` and `hostWrapper.addSource` both begin with `h.lock.Lock(); defer h.lock.Unlock()`, release the lock nowhere\nelse and start no goroutine -/\ndef wrapperLocked : Bool := %v\n\nend OtelVerif.Gen.StatusGlue\n", wrapperLocked)
 	fmt.Print(b.String())
 }
 
